@@ -87,7 +87,7 @@ def feat_proj(f, n, refs):
     label = f.qualifiers.get("label") or [""]
     label = label if isinstance(label, str) else label[0]
     return {"lab": "%s|%s%s" % (f.type, json.dumps(quals, sort_keys=True), project.between_marker(f.location)), "type": f.type,
-            "plasmid": str(plasmid), "srclabel": str(label).startswith("source: "),
+            "plasmid": str(plasmid), "srclabel": str(label).startswith("source: "), "between": bool(project.between_marker(f.location)),
             "parts": project.runs(project.loc_pairs(f.location, n), n) if n else [], "cites": cites, "raw": raw,
             "bracketed": bracketed}
 
